@@ -327,7 +327,7 @@ fn run(cfg: &Cfg) -> Report {
         rep.absorb(run_enumerated(cfg, "pairs", &pairs, |c| serde_json::to_value(c).unwrap(), check));
     }
     if !rep.failed() {
-        let cases = cfg.tier.pick(3000u32, 40000u32);
+        let cases = cfg.tier.pick(8000u32, 60000u32);
         rep.absorb(run_proptest(
             cfg,
             "products",
